@@ -7,6 +7,7 @@ package otter
 // spec/LoadHist.tla.
 
 import (
+	"strings"
 	"bufio"
 	"context"
 	"encoding/json"
@@ -244,6 +245,9 @@ func runLoadScenario(sc ldScenario) ldResult {
 		})
 	}
 	res.Diag = s.Run()
+	if res.Diag != "" && res.Diag != "step limit" && !strings.HasPrefix(res.Diag, "panic") && s.WaitDone(5*time.Second) {
+		res.Diag = ""
+	}
 	// Run may give up while goroutines are merely slow (loaded machine): a call counts as hung only if it
 	// has still not returned after a generous wait with every gate open
 	for wait := 0; wait < 1500; wait++ {
@@ -350,5 +354,8 @@ func TestVerifLoad(t *testing.T) {
 	for _, sc := range scs {
 		r := runLoadScenario(sc)
 		_ = enc.Encode(r)
+		if strings.HasPrefix(r.Diag, "panic") || strings.HasPrefix(r.Diag, "hang") {
+			break
+		}
 	}
 }
